@@ -37,6 +37,9 @@ def build_class(spec, name=None):
         kw = {}
         if p.get('constant'):
             kw['constant'] = p['default']
+        elif p.get('needscfg'):
+            kw['needscfg'] = True
+            kw['readonly'] = bool(p.get('readonly'))
         else:
             kw['default'] = p['default']
             kw['readonly'] = bool(p.get('readonly'))
